@@ -4,7 +4,7 @@ doc   = {'stories': [{'kind': 0|1|2, 'blocks': [block]}], 'comments': [{'id','au
 block = {'t': 'p', 'pid': n, 'ppr': tok, 'style': ['N', bold] | ['H', n] | ['T'] | ['O'], 'nodes': [node]}
       | {'t': 'tbl', 'tok': n, 'rows': [[{'tok': n, 'span': k, 'vm': None|'restart'|'continue', 'blocks': [block]}]]}
 node  = ['run', uid, rpr, kids] | ['ins'|'del', uid, [id, author, date], [node]] | ['crs', id] | ['cre', id] | ['other', tok]
-rpr   = None | [[tag, val], ...]      tag 1 = w:b, 2 = w:i (val 0 = off, 1 = on); tag >= 100: index into rpr_table + 100, val 0
+rpr   = None | [[tag, val], ...]      tag 1 = w:b, 2 = w:i (val 0 = w:val off, 1 = no w:val attribute, 2 = w:val="1", 3 = "true", 4 = "on"); tag >= 100: index into rpr_table + 100, val 0
 kid   = ['t', s] | ['dt', s] | ['tab'] | ['br'] | ['cr'] | ['ref', id] | ['other', tok]
 The reader (bytes -> doc) uses lxml + zipfile only: no python-docx, no adeu code.  It is the abstraction function the
 correspondence and every oracle rest on (trusted; exercised by build -> read round trips on every generated case)."""
@@ -30,8 +30,9 @@ def rpr_xml(rpr, table):
     if rpr is None: return ''
     out = []
     for tag, val in rpr:
-        if tag == 1: out.append('<w:b/>' if val == 1 else '<w:b w:val="%s"/>' % ('0' if val == 0 else val))
-        elif tag == 2: out.append('<w:i/>' if val == 1 else '<w:i w:val="%s"/>' % ('0' if val == 0 else val))
+        if tag in (1, 2):
+            nm = 'b' if tag == 1 else 'i'
+            out.append('<w:%s/>' % nm if val == 1 else '<w:%s w:val="%s"/>' % (nm, {0: '0', 2: '1', 3: 'true', 4: 'on'}[val]))
         else: out.append(table[tag - 100])
     return '<w:rPr>%s</w:rPr>' % ''.join(out)
 def t_xml(tag, s):
@@ -177,7 +178,7 @@ class Reader:
             loc = etree.QName(c).localname
             if loc in ('b', 'i') and set(c.attrib) <= {q('val')}:
                 v = c.get(q('val'))
-                out.append([1 if loc == 'b' else 2, 0 if v in ('0', 'false', 'off') else 1])
+                out.append([1 if loc == 'b' else 2, 0 if v in ('0', 'false', 'off') else {None: 1, '1': 2, 'true': 3, 'on': 4}.get(v, 1)])
             else:
                 s = etree.tostring(c, method='c14n', exclusive=True).decode()
                 s = re.sub(r' xmlns:\w+="[^"]*"', '', s)
